@@ -6,7 +6,7 @@ Utilities to Support Random Operations and Generating Vectors and Matrices
 import numpy as np
 from numba import guvectorize, types
 from numba.extending import overload
-from ..util import check_random_state, searchsorted
+from ..util import check_random_state, searchsorted_cdf
 
 
 # Generating Arrays and Vectors #
@@ -202,11 +202,11 @@ def draw(cdf, size=None):
         rs = np.random.random(size)
         out = np.empty(size, dtype=np.int_)
         for i in range(size):
-            out[i] = searchsorted(cdf, rs[i])
+            out[i] = searchsorted_cdf(cdf, rs[i])
         return out
     else:
         r = np.random.random()
-        return searchsorted(cdf, r)
+        return searchsorted_cdf(cdf, r)
 
 
 # Overload for the `draw` function
@@ -217,10 +217,10 @@ def ol_draw(cdf, size=None):
             rs = np.random.random(size)
             out = np.empty(size, dtype=np.int_)
             for i in range(size):
-                out[i] = searchsorted(cdf, rs[i])
+                out[i] = searchsorted_cdf(cdf, rs[i])
             return out
     else:
         def draw_impl(cdf, size=None):
             r = np.random.random()
-            return searchsorted(cdf, r)
+            return searchsorted_cdf(cdf, r)
     return draw_impl
